@@ -303,32 +303,36 @@ theorem asUnsafePath_seq {ws : Nat → World} {i0 : Nat} {H : Hist} (hans : AnsS
       exact ⟨i0 + hm.length, by omega, by omega, hev, hb⟩
     · exact absurd hodd hno
 
-/-- **The emulated lookup under an arbitrary attacker**: a descriptor it returns refers to an object that was below
-the root at some moment during the call. -/
-theorem emulated_resolve_under_attack (ws : Nat → World) (root : Fd) (rc : List Bytes) (m : Nat)
-    (ha : Attacker ws root rc m) (path : Bytes) (rflags : Nat) (nofollow : Bool) (i0 : Nat) (fd : Fd)
-    (h : (runSeq ws i0 (Opath.resolve (aenv m) root path rflags nofollow)).1 = .ok fd) :
-    ∃ i p, i0 ≤ i ∧ i < (runSeq ws i0 (Opath.resolve (aenv m) root path rflags nofollow)).2 ∧
-      (ws i).dpath fd = some p := by
-  obtain ⟨H, hruns, hlen, hans⟩ := runSeq_runs ws (Opath.resolve (aenv m) root path rflags nofollow) i0 []
-  rw [h] at hruns
-  rw [hlen]
-  simp only [List.nil_append] at hruns
+/-- a prefix of a history answered by the moments is answered by the moments -/
+theorem AnsSeq.of_prefix {ws : Nat → World} {i0 : Nat} {H hm : Hist} (hans : AnsSeq ws i0 H) (hpre : hm <+: H) :
+    AnsSeq ws i0 hm := by
+  intro k hk
+  obtain ⟨t, rfl⟩ := hpre
+  have h2 := hans k (by rw [List.length_append]; omega)
+  simp only [List.getElem_append_left hk] at h2
+  exact h2
+
+/-- **The emulated lookup as a sub-run of a history answered by the moments** (`hm`: everything up to and including the
+lookup, the first entry answered at moment `i0`; the lookup itself starts after `h`): a descriptor it returns refers to
+an object that was below the root at one of the moments of `hm`. -/
+theorem emulated_resolve_sub (ws : Nat → World) (root : Fd) (rc : List Bytes) (m : Nat)
+    (ha : Attacker ws root rc m) (path : Bytes) (rflags : Nat) (nofollow : Bool) (i0 : Nat) {h hm : Hist} {fd : Fd}
+    (hans : AnsSeq ws i0 hm) (hruns : Runs (Opath.resolve (aenv m) root path rflags nofollow) h hm (.ok fd)) :
+    ∃ i p, i0 ≤ i ∧ i < i0 + hm.length ∧ (ws i).dpath fd = some p := by
   obtain ⟨rd, hdup, hwf⟩ := emulated_checked _ _ _ _ _ hruns
-  simp only [List.nil_append] at hdup hwf
   -- the walk's duplicate of the root is the root
   have hrd : rd = root := by
-    have h1 := (ans_at hans (pre := []) rfl hdup).1
+    have h1 := (ans_at hans (pre := h) rfl hdup).1
     simp only [World.answer] at h1
     cases h1; rfl
   subst hrd
   obtain ⟨exp, h0, h1, tail, hgood, _, hH, hcase⟩ := hwf
-  have hp1 : h1 <+: H := ⟨tail, hH.symm⟩
+  have hp1 : h1 <+: hm := ⟨tail, hH.symm⟩
   rcases hcase with ⟨hc, _⟩ | ⟨hc, t2, htail, _⟩
   · -- the last check was on the descriptor returned
     obtain ⟨rootPath, curPath, rootPath2, hA, hB, r1, r2, r3, _, hcomp⟩ := checked_below_root hc hgood
-    have pB : hB <+: H := (Runs.isPrefix r3).trans hp1
-    have pA : hA <+: H := (Runs.isPrefix r2).trans pB
+    have pB : hB <+: hm := (Runs.isPrefix r3).trans hp1
+    have pA : hA <+: hm := (Runs.isPrefix r2).trans pB
     obtain ⟨t1, _, _, _, e1⟩ := asUnsafePath_seq hans ha.threadSelf_kind m r1 pA
     rw [ha.root_path] at e1
     dsimp only at e1
@@ -344,10 +348,23 @@ theorem emulated_resolve_under_attack (ws : Nat → World) (root : Fd) (rc : Lis
       simp at hcmp
   · -- the walk ended on its root duplicate: the result is `openat(root, ".")`, the root itself
     have hopen : h1 ++ [(Call.openat rd Path.dot (O_PATH ||| O_NOFOLLOW ||| O_NOFOLLOW ||| O_CLOEXEC ||| O_NOCTTY) 0,
-        Resp.fd fd)] <+: H := ⟨t2, by rw [hH, htail]; simp⟩
+        Resp.fd fd)] <+: hm := ⟨t2, by rw [hH, htail]; simp⟩
     obtain ⟨hresp, hlt⟩ := ans_at hans rfl hopen
     have hfd : fd = rd := answer_openat_dot _ _ (tree_ne_fdDir ha.root_tree) _ _ _ hresp
-    exact ⟨i0, [], Nat.le_refl _, by omega, by rw [hfd]; exact ha.root_path i0⟩
+    exact ⟨i0 + h1.length, [], by omega, by omega, by rw [hfd]; exact ha.root_path _⟩
+
+/-- **The emulated lookup under an arbitrary attacker**: a descriptor it returns refers to an object that was below
+the root at some moment during the call. -/
+theorem emulated_resolve_under_attack (ws : Nat → World) (root : Fd) (rc : List Bytes) (m : Nat)
+    (ha : Attacker ws root rc m) (path : Bytes) (rflags : Nat) (nofollow : Bool) (i0 : Nat) (fd : Fd)
+    (h : (runSeq ws i0 (Opath.resolve (aenv m) root path rflags nofollow)).1 = .ok fd) :
+    ∃ i p, i0 ≤ i ∧ i < (runSeq ws i0 (Opath.resolve (aenv m) root path rflags nofollow)).2 ∧
+      (ws i).dpath fd = some p := by
+  obtain ⟨H, hruns, hlen, hans⟩ := runSeq_runs ws (Opath.resolve (aenv m) root path rflags nofollow) i0 []
+  rw [h] at hruns
+  rw [hlen]
+  simp only [List.nil_append] at hruns
+  exact emulated_resolve_sub ws root rc m ha path rflags nofollow i0 hans hruns
 
 /-- non-vacuity of the attacker model: the constant sequence of a well-formed world is an attack (by nobody).  (`World.WF`
 says nothing about the kinds of the procfs objects, hence `hts`.) -/
